@@ -125,6 +125,17 @@ def sweep_harness_text(kind, sel):
 
 # ------------------------------------------------------------------------------------------- C01
 BITPRECISE = 'CBMC float model is IEEE-754 binary32/binary64 round-to-nearest-even; cfg!(target_feature="fma") false in the Kani build (mul_add calls in the kernels are fused regardless)'
+KAPI = ('src/lib.rs', 'k_api_golden.rs', 'verif_kani_api')
+APIB = 'PUBLIC API ONLY, fixed 9x1 4:4:4 image / 9 fixed RGB pixels against golden f64 H.273 values (tools_golden_yuv.py); anchor-free: survives any internal refactoring; run as the FIRST Kani job, before any kernel-level harness file is injected'
+API_DEC = ['bt709_8_full_u8', 'ycgco_16_lim_u16', 'bt709_8_lim_u8', 'bt2020non_10_full_u16', 'st170m_16_full_u16', 'bt470bg_12_lim_u16']
+API_ENC = ['bt709_8_full_u8', 'bt470m_10_lim_u16', 'bt709_8_lim_u8', 'ycgco_16_full_u16', 'st240m_16_lim_u16', 'bt2020non_12_full_u16']
+def api_job(kind, tier, nquick):
+    names = {'decode': API_DEC, 'roundtrip': API_DEC, 'encode': API_ENC}[kind]
+    desc = {'decode': 'Rgb::try_from(&Yuv): every component within 3e-6 of H.273 (codes incl. 0, 1, black, mid, white, max: clamps exercised)',
+            'roundtrip': 'decode then Yuv::try_from((&Rgb, cfg)): every code back (legal-range clamp; full-range chroma 0 may be 1), config and dims kept',
+            'encode': 'Yuv::try_from((&Rgb, cfg)): |code - clamp(ideal)| <= 0.5 + 1e-6*2^n (pixels incl. primaries, white, black, out-of-gamut), config and dims kept'}[kind]
+    sel = names if tier == 'thorough' else names[:nquick]
+    return {'crate_dir': '', 'inject': [KAPI], 'harnesses': [H(f'api_{kind}_{n}', fixed=True, bounded=APIB, domain='9 fixed pixels', desc=desc) for n in sel]}
 def plan_c01(tier, seed):
     hs = [H(n, domain='all codes <= 2^n-1', desc='|to_f32_luma(c) - clamp((c-black)/range,0,1)| <= 1e-6 (H.273 black/range from the statement)') for n in depth_names('norm_luma', 'thorough')]
     hs += [H(n, domain='all codes <= 2^n-1', desc='|to_f32_chroma(c) - clamp((c-2^(n-1))/range,-.5,.5)| <= 1e-6') for n in depth_names('norm_chroma', 'thorough')]
@@ -133,8 +144,8 @@ def plan_c01(tier, seed):
     names, txt = sweep_harness_text('decode', sel)
     hs += [H(n, bounded='one plane symbolic over all codes, other two fixed at the companions in the name', domain=n,
              desc='real to_f32_* + inv.mul_arr vs H.273 closed form in f64, 3e-6') for n in names]
-    return {'verus': [('u_matrix', {}), ('u_color', {}), ('u_round', UR_OPT)],
-            'kani': [{'crate_dir': '', 'inject': [YR, KC], 'append': [('k_color.rs', txt)], 'harnesses': hs}]}
+    return {'verus': [('u_matrix', {}), ('u_color', {}), ('u_planes', {}), ('u_round', UR_OPT)],
+            'kani': [api_job('decode', tier, 2), {'crate_dir': '', 'inject': [YR, KC], 'append': [('k_color.rs', txt)], 'harnesses': hs}]}
 reg('C01', plan=plan_c01, level='proof', min_obligations=400,
     title='YUV->RGB decoding equals the H.273 definition',
     technique='Verus: real color.rs/matrix.rs under exact-field contracts (decode = inverse of the H.273 encode matrix, Kr/Kb table) and the real mul_arr under the standard model of f32 rounding (error budget lemma for all triples); Kani: bit-precise normalisation of every code and input-free evaluation of all 7 decode matrices; bounded per-plane sweeps',
@@ -155,7 +166,7 @@ def plan_c02(tier, seed):
     hs += [H(n, domain='v: all 2^32 f32 bit patterns', desc='emitted luma and chroma codes <= 2^n-1') for n in depth_names('codes_valid', 'thorough')]
     hs += [H(f'encode_{m}', domain='input-free', desc='every f32 entry of the real get_rgb_to_yuv_matrix within 6e-8 of the H.273 closed form (f64)') for m in MATS]
     return {'verus': [('u_color', {}), ('u_dispatch', {}), ('u_round', UR_OPT)],
-            'kani': [{'crate_dir': '', 'inject': [YR, KC], 'harnesses': hs}]}
+            'kani': [api_job('encode', tier, 2), {'crate_dir': '', 'inject': [YR, KC], 'harnesses': hs}]}
 reg('C02', plan=plan_c02, level='proof', min_obligations=400,
     title='RGB->YUV encoding rounds to the nearest H.273 code',
     technique='Kani function-level proofs of the real quantiser over every f32 (round, saturating cast, clamp, special case) against the exact f64 ideal; Verus: encode matrix = H.273 (exact), output config/dimensions by plane-loop contracts',
@@ -181,8 +192,8 @@ def plan_c08(tier, seed):
     names, txt = sweep_harness_text('roundtrip', sel)
     hs += [H(n, bounded='one plane symbolic over all codes, other two fixed at the companions in the name', domain=n,
              desc='real composite from_f32 . fwd.mul_arr . inv.mul_arr . to_f32 returns the (legal-range-clamped) codes') for n in names]
-    return {'verus': [('u_color', {}), ('u_round', UR_OPT)],
-            'kani': [{'crate_dir': '', 'inject': [YR, KC], 'append': [('k_color.rs', txt)], 'harnesses': hs}]}
+    return {'verus': [('u_color', {}), ('u_planes', {}), ('u_round', UR_OPT)],
+            'kani': [api_job('roundtrip', tier, 1), {'crate_dir': '', 'inject': [YR, KC], 'append': [('k_color.rs', txt)], 'harnesses': hs}]}
 reg('C08', plan=plan_c08, level='proof', min_obligations=400,
     title='YUV->RGB->YUV is a lossless code round trip',
     technique='Kani: complete bit-precise proofs that code->float->code is the identity per plane AND absorbs any perturbation |e| <= 2.5e-6 (all codes, depths, ranges, storage); Verus: fwd*(inv*v) = v exactly and, under the standard model of f32 rounding, the real inv.mul_arr then fwd.mul_arr stay within 2.5e-6 for ALL triples; bounded per-plane sweeps',
@@ -263,7 +274,9 @@ def plan_c12(tier, seed):
     hs = [H('range_check_is_any_visible_sample_2x2_444_10bit', bounded='real v_frame planes, 2x2 4:4:4, all 12 samples symbolic', domain='12 symbolic u16 samples',
             desc='cross-check of the cut iterator expression (R-anycut): InvalidData <=> some visible sample > 2^n-1'),
           H('range_check_is_any_visible_sample_2x2_420_12bit', bounded='real v_frame planes, 2x2 luma + 1x1 chroma 4:2:0, all 6 samples symbolic', domain='6 symbolic u16 samples',
-            desc='same, subsampled geometry')]
+            desc='same, subsampled geometry'),
+          H('range_check_ignores_stride_padding_2x2_in_4x3', bounded='real v_frame planes, 2x2 visible luma inside a 4x3 buffer (xpad 2, ypad 1), all 20 samples symbolic', domain='20 symbolic u16 samples',
+            desc='only VISIBLE samples are range-checked: junk in the stride / bottom padding does not reject the frame')]
     CB = 'data length fixed (0 or 6 pixels; a Vec of symbolic length is intractable for CBMC); width and height: every usize'
     for ty in ('lrgb', 'xyb', 'hsl'):
         for n in (6, 0):
